@@ -19,7 +19,7 @@ from .odecommon import expected_aliases
 LEVEL = "exploration"
 
 # species data by construction: name -> (mass number, charge)
-GAS = {"H": (1, 0), "H2": (2, 0), "O": (16, 0), "OH": (17, 0), "CO": (28, 0), "H2O": (18, 0), "CH3OH": (32, 0), "HCO": (29, 0), "HCO+": (29, 1), "CO2": (44, 0), "H3O+": (19, 1)}
+GAS = {"H": (1, 0), "H2": (2, 0), "O": (16, 0), "OH": (17, 0), "CO": (28, 0), "H2O": (18, 0), "CH3OH": (32, 0), "HCO": (29, 0), "HCO+": (29, 1), "CO2": (44, 0), "H3O+": (19, 1), "OH-": (17, -1)}
 EB_RATE12 = {"H": 600.0, "H2": 430.0, "O": 800.0, "OH": 2850.0, "CO": 1150.0, "H2O": 4800.0, "CH3OH": 4930.0, "HCO": 1600.0, "CO2": 2990.0}
 NO_EB = "C2H5C2H5O"  # an ice species without RATE12 entry (checked against the data file)
 
@@ -61,6 +61,7 @@ def reactions_for(path, model, variant, tier="quick"):
             add("cosmicray", [g], 1.0, [pre + g], [g], 9)
             add("photon", [g], 1.0, [pre + g], [g], 10)
         add("freeze", ["HCO+"], 1.0, ["HCO+"], [pre + "HCO"], 7)
+        add("freeze", ["OH-"], 0.5, ["OH-"], [pre + "OH"], 7)
         for a in (0.0, 1000.0):
             add("surface", ["H", "H"], a, [pre + "H", pre + "H"], [pre + "H2"], 13)
             add("surface", ["H", "CO"], a, [pre + "H", pre + "CO"], [pre + "HCO"], 13)
@@ -88,6 +89,7 @@ def reactions_for(path, model, variant, tier="quick"):
             add("photon", [g], 1.0, [pre + g], [g], None, "DEUVCR")
             add("h2", [g], 1.0, [pre + g], [g], None, "DESOH2")
         add("freeze", ["HCO+"], 1.0, ["HCO+"], [pre + "CO", "H"], None, "FREEZE", 1.0)
+        add("freeze", ["OH-"], 0.5, ["OH-"], [pre + "OH"], None, "FREEZE")
         if model.startswith("rr07"):
             add("freeze", ["E-"], 1.0, ["E-"], [], None, "FREEZE")
     elif path == "api":
@@ -99,6 +101,7 @@ def reactions_for(path, model, variant, tier="quick"):
             add("photon", [g], 1.0, [pre + g], [g], codes["photon"])
             add("h2", [g], 1.0, [pre + g], [g], codes["h2"])
         add("freeze", ["HCO+"], 1.0, ["HCO+"], [pre + "HCO"], codes["freeze"])
+        add("freeze", ["OH-"], 0.5, ["OH-"], [pre + "OH"], codes["freeze"])
         if model.startswith("rr07"):
             add("freeze", ["e-"], 1.0, ["e-"], [], codes["freeze"])
         for a in (0.0, 1000.0):
